@@ -66,18 +66,28 @@ def run(res, tier, seed):
             rc2, o2, _ = vlib.sh("timeout 600 coqc -Q .. NIPAM -R . Gen C16_current.v 2>&1", cwd=c16.GEN, timeout=700, check=False) if rc1 == 0 else (1, o1, 0)
         ok2 = rc2 == 0
     res.obligation("hypothesis of C15_partial_lock_serializable for the current tree: lock discipline (gen/C16_current.v)", ok2)
-    if not ok2:
-        res.violation({"property": "C15", "kind": "proof-break", "theorem_or_correspondence": "lock discipline of the current tree (see C16)"}, nofail=True)
+    proof_broken = not ok2      # reported below, with a failing workload if the search finds one
     ok, out, _ = vlib.harness_build(race=True)
     res.obligation("harness built with the Go race detector", ok)
     if not ok:
         res.violation({"property": "C15", "kind": "check-error", "theorem_or_correspondence": "race build", "detail": out[-2000:]}, nofail=True)
         return
-    n = 12 if tier == "quick" else 120
+    n0 = 12 if tier == "quick" else 120
+    # churn workloads: every served node is updated and deleted at the same moment by 16 clients (work items for nodes that
+    # hold pod CIDRs race with the deletion handler for the lock); many more of them when the lock-discipline proof broke:
+    # that is the search for a failing input
+    nch = (4 if tier == "quick" else 40) + (40 if proof_broken else 0)
+    n = n0 + nch
+    kinds = ["workload"] * n0 + ["churn"] * nch
+    specs = []
     cf = vlib.casefile("C15")
     with open(cf, "w") as f:
         for i in range(n):
-            f.write("case w%d\nworkload %d %d %d\n" % (i, seed * 1000 + i, 30 + (i * 7) % 50, 3 + i % 4))
+            if kinds[i] == "workload":
+                specs.append("workload %d %d %d" % (seed * 1000 + i, 30 + (i * 7) % 50, 3 + i % 4))
+            else:
+                specs.append("churn %d %d %d" % (seed * 1000 + i, 60 + (i * 13) % 60, 2 + i % 3))
+            f.write("case w%d\n%s\n" % (i, specs[i]))
     p = subprocess.run([os.path.join(vlib.BUILD, "drive_race"), "race", cf], stdout=subprocess.PIPE, stderr=subprocess.PIPE, text=True, timeout=3000,
                        env=dict(os.environ, GORACE="halt_on_error=0 exitcode=0"))
     races = p.stderr.count("WARNING: DATA RACE")
@@ -91,7 +101,9 @@ def run(res, tier, seed):
     res.coverage.update({
         "evaluations": n, "distinct_nontrivial": len(set(lines)),
         "rule": "seeded concurrent workloads: 30-80 nodes created by 4 goroutines (20% deleted again), 3-6 ClusterCIDRs (half listed at start-up, half created while "
-                "running, overlapping and selector-carrying ones included), one deletion request; the real Run() with its workers; -race build; non-trivial = distinct final state",
+                "running, overlapping and selector-carrying ones included), one deletion request; churn workloads: 60-120 nodes, each updated and deleted at the same "
+                "moment by 16 clients once served; the real Run() with its workers; -race build; non-trivial = distinct final state",
+        "distribution": {"workloads": n0, "churn_workloads": nch},
         "samples": [lines[0][:400]] if lines else [], "data_races": races, "explanation": "validation run, not a proof; the theorem is Properties/C15.v",
     })
     res.assumptions.append("PARTIAL: the theorem covers interleavings of lock-protected critical sections (hypothesis: C16's discipline on the current tree); data races outside the lock "
@@ -102,6 +114,39 @@ def run(res, tier, seed):
         res.violation({"property": "C15", "kind": "impl-violation", "theorem_or_correspondence": "Go race detector", "report": p.stderr[:3000], "workload_seed": seed, "report_file": rp})
     for i, b in fails[:3]:
         res.violation({"property": "C15", "kind": "impl-violation", "theorem_or_correspondence": "final-state monitor", "detail": b,
-                       "case": ["workload %d" % (seed * 1000 + i)], "final_state": lines[i][:2000]})
+                       "case": [specs[i] if i < len(specs) else "?"], "final_state": lines[i][:2000],
+                       "also": "the lock-discipline hypothesis of C15_partial_lock_serializable no longer checks for this tree (see C16)" if proof_broken else ""})
+    if proof_broken and not fails and not races:
+        res.violation({"property": "C15", "kind": "proof-break", "theorem_or_correspondence": "lock discipline of the current tree (see C16)",
+                       "search": "%d workloads incl. %d churn workloads under the race detector: no data race, no final-state violation" % (n, nch)}, nofail=True)
     if len(lines) != n and not fails and not races:
         res.violation({"property": "C15", "kind": "check-error", "theorem_or_correspondence": "race run", "detail": p.stderr[-2000:]}, nofail=True)
+
+
+def replay(res, path):
+    """run the workload(s) of a replay file again (ten times each: thread schedules vary) under the race detector"""
+    import json
+    r = json.load(open(path))
+    specs = [l for l in r.get("case", []) if l.split()[0] in ("workload", "churn")]
+    ok, out, _ = vlib.harness_build(race=True)
+    res.obligation("harness built with the Go race detector", ok)
+    if not ok or not specs:
+        res.violation({"property": "C15", "kind": "check-error", "theorem_or_correspondence": "replay", "detail": (out[-1500:] if not ok else "no workload in the replay file")}, nofail=True)
+        return
+    cf = vlib.casefile("C15replay")
+    with open(cf, "w") as f:
+        for k in range(10):
+            for i, s in enumerate(specs):
+                f.write("case r%d_%d\n%s\n" % (k, i, s))
+    p = subprocess.run([os.path.join(vlib.BUILD, "drive_race"), "race", cf], stdout=subprocess.PIPE, stderr=subprocess.PIPE, text=True, timeout=3000,
+                       env=dict(os.environ, GORACE="halt_on_error=0 exitcode=0"))
+    lines = [l for l in p.stdout.splitlines() if l.startswith("workload")]
+    races = p.stderr.count("WARNING: DATA RACE")
+    fails = [(i, b) for i, l in enumerate(lines) for b in final_checks(l)]
+    res.obligation("replayed workloads: no data race, final-state monitors hold (10 runs each)", not fails and not races and len(lines) == 10 * len(specs))
+    for i, b in fails[:3]:
+        print("monitor: final state | %s | %s" % (specs[i % len(specs)], b))
+        res.violation({"property": "C15", "kind": "impl-violation", "theorem_or_correspondence": "final-state monitor", "detail": b,
+                       "case": [specs[i % len(specs)]], "final_state": lines[i][:2000]})
+    if races:
+        res.violation({"property": "C15", "kind": "impl-violation", "theorem_or_correspondence": "Go race detector", "report": p.stderr[:3000], "case": specs})
